@@ -262,7 +262,8 @@ func runC13(c *Ctx) error {
 		pads := padSets[pi]
 		mk := func(attr func(i int) bool) ([]byte, []bool) {
 			st := xmpStyle{quote: []byte{'"', '\''}[c.Rng.Intn(2)], pad: func() string { return pads[c.Rng.Intn(len(pads))] }}
-			st.junk = []string{"", "<?xpacket begin=\"\" id=\"W5M0MpCehiHzreSzNTczkc9d\"?>\n", "junk < not a tag <y:z> " + strings.Repeat("#", c.Rng.Intn(3000))}[c.Rng.Intn(3)]
+			st.junk = []string{"", "<?xpacket begin=\"\" id=\"W5M0MpCehiHzreSzNTczkc9d\"?>\n", "junk < not a tag <y:z> " + strings.Repeat("#", c.Rng.Intn(3000)),
+				"<", "<<", "<y:z>", "<!-- c --><a>", "<?xpacket begin=\"\"?>", "x:xmpmeta <x:xmpmet", strings.Repeat("<", 1+c.Rng.Intn(12))}[c.Rng.Intn(10)]
 			for i := range props {
 				st.form = append(st.form, attr(i))
 			}
